@@ -13,9 +13,12 @@ class Spec(_masterprop.MasterSpec):
         stats = collections.Counter()
         viol = []
         w = statex.build(self, hist)
-        if w.dead or not w.master.up_to_date:
-            stats['c11_states_skipped_no_cycle'] += 1
+        if w.dead:
             return viol, dict(stats)
+        if not w.master.up_to_date:
+            # an event reached ZooKeeper but the master failed over before
+            # its next cycle: also a reachable stored state
+            stats['c11_reloads_before_cycle'] += 1
         mark = len(w.viol)
         ev = ('reload-check', True)
         ok, _exc = statex.step(self, w, ev)
@@ -35,7 +38,6 @@ class Spec(_masterprop.MasterSpec):
 def _m1():
     cfg = mastercfg.m1()
     cfg['monitors'] = []
-    cfg['allow_nocycle'] = False
     cfg['events'] = mastercfg.ev(
         ('app+', 'sm'), ('app+', 'id'), ('app+', 'hi'), ('app+', 'on'),
         ('app+', 'ls'),
@@ -54,8 +56,8 @@ def _m1():
 
 def configs(ctx):
     if ctx.quick:
-        return [('M1', _m1(), 3, 0)]
-    return [('M1', _m1(), 5, 0)]
+        return [('M1', _m1(), 3, 1)]
+    return [('M1', _m1(), 5, 1)]
 
 
 RULE = ('BFS over World-B histories (a cycle after each event); at every '
